@@ -134,6 +134,19 @@ def benchmark_history(name, prior):
 
 def main():
     params = json.loads(sys.argv[1])
+    if "_api_seeded" in params:
+        # the top-level entry points with a seed: the scenario inside the environment is the seeded scenario
+        import nasim.scenarios as S
+        q = params["_api_seeded"]
+        name, sd = q["name"], q["seed"]
+        out = dict(ok=True,
+                   env=fingerprint(nasim.make_benchmark(name, sd).scenario),
+                   env_again=fingerprint(nasim.make_benchmark(name, sd, fully_obs=True).scenario),
+                   scenario=fingerprint(S.make_benchmark_scenario(name, sd)),
+                   gen_env=fingerprint(nasim.generate(6, 2, seed=sd, num_os=2).scenario),
+                   gen_scenario=fingerprint(nasim.generate_scenario(6, 2, seed=sd, num_os=2)))
+        print(json.dumps(out))
+        return
     if "_benchmark_history" in params:
         h = params["_benchmark_history"]
         print(json.dumps(dict(ok=True, fingerprint=benchmark_history(h["name"], h["prior"]))))
